@@ -70,7 +70,7 @@ STAGES.update({
         'quick': [
             ('histories-len2', 'MimeBuild', cfg(MAXP='2', MAXE='1', MAXA='1', ENCS='{"qp"}', FENCS='{"", "8bit"}',
                                                 CCS='<<"crlf", "utf8", "size900">>', SRCS='<<"seeker", "reader", "file", "iofs", "tpl">>',
-                                                OPSEQS='{<<a, b>> : a, b \\in {"WriteTo", "Write", "Reader", "UpdateReader", "File", "TempFile", "FailSinkMid"}}')),
+                                                OPSEQS='{<<a, b>> : a, b \\in {"WriteTo", "Write", "Reader", "UpdateReader", "File", "FileOver", "TempFile", "FailSinkMid"}}')),
             ('producer-outage', 'MimeBuild', cfg(MAXP='2', MAXE='1', MAXA='1', ENCS='{"qp"}', PRODS='<<"writer", "chunk7">>', SRCS='<<"seeker", "chunk57">>',
                                                  CCS='<<"crlf", "size900">>',
                                                  OPSEQS='{<<a, "BreakSrc", b, "FixSrc", c>> : a \\in {"WriteTo", "Reader"}, b \\in {"WriteTo", "Reader", "UpdateReader", "File"}, c \\in {"WriteTo", "UpdateReader", "Reader", "TempFile"}}')),
@@ -81,7 +81,7 @@ STAGES.update({
         'thorough': [
             ('histories-len2', 'MimeBuild', cfg(MAXP='2', MAXE='2', MAXA='2', ENCS='{"qp", "8bit"}', FENCS='{"", "8bit", "b64"}', ROTS='{0, 1, 2}',
                                                 CCS='<<"crlf", "utf8", "size900">>', SRCS='<<"seeker", "reader", "file", "iofs", "tpl", "chunk57">>',
-                                                OPSEQS='{<<a, b>> : a, b \\in {"WriteTo", "Write", "Reader", "UpdateReader", "File", "TempFile", "FailSink", "FailSinkMid", "FailSinkLate"}}')),
+                                                OPSEQS='{<<a, b>> : a, b \\in {"WriteTo", "Write", "Reader", "UpdateReader", "File", "FileOver", "TempFile", "FailSink", "FailSinkMid", "FailSinkLate"}}')),
             ('histories-len3-4', 'MimeBuild', cfg(MAXP='2', MAXE='1', MAXA='1', ENCS='{"b64"}', ROTS='{2, 3}',
                                                 CCS='<<"crlf", "utf8", "size900">>', SRCS='<<"seeker", "reader", "file", "iofs", "tpl">>',
                                                 OPSEQS='{<<a, b, c>> : a, b, c \\in {"WriteTo", "FailSinkMid", "Reader", "UpdateReader", "File"}} \\cup {<<a, b, c, d>> : a, c \\in {"WriteTo", "Reader"}, b, d \\in {"FailSinkLate", "UpdateReader", "TempFile"}}')),
@@ -90,7 +90,9 @@ STAGES.update({
     'C18': {
         'quick': [
             ('header-values', 'MimeBuild', cfg(MAXP='1', MAXE='0', MAXA='1', ENCS='{"qp", "b64"}', CCS='<<"crlf">>',
-                                               HDRS=hdrsets(["subject", "gen", "org", "fromname"], ["plain", "long", "token300", "token78", "token1000", "blanks", "trail", "tabs", "utf8", "words5", "words20", "words40", "words75", "words76", "words77"]))),
+                                               HDRS=hdrsets(["subject", "gen", "org", "fromname"], ["plain", "long", "token300", "token78", "token1000", "blanks", "trail", "tabs", "utf8", "words5", "words20", "words40", "words75", "words76", "words77"]
+                                                            + ["dwords%d" % n for n in (1, 5, 20, 40, 56, 57, 58, 70, 71, 72, 75, 76, 80, 100)])
+                                                    + ' \\cup ' + hdrsets(["preform"], ["plain", "multiline"]))),
             ('body-lengths-chunkings', 'MimeBuild', cfg(MAXP='2', MAXE='1', MAXA='1', ENCS='{"qp", "b64"}', PENCS='{"", "b64"}', CCS=LENS, ROTS='0..20',
                                                         PRODS='<<"string", "chunk1", "chunk3", "chunk7", "chunk57", "chunk76", "chunkr", "writer", "chunk19", "chunk2">>',
                                                         SRCS='<<"seeker", "chunk1", "chunk3", "chunk57", "reader", "chunk7">>')),
@@ -99,7 +101,8 @@ STAGES.update({
         ],
         'thorough': [
             ('header-values', 'MimeBuild', cfg(MAXP='2', MAXE='0', MAXA='1', ENCS='{"qp", "b64"}', CCS='<<"crlf">>',
-                                               HDRS=hdrsets(SETTERS, ["plain", "long", "token300", "token78", "token1000", "blanks", "trail", "tabs", "utf8"] + ["words%d" % n for n in (1, 5, 20, 40, 60, 70, 74, 75, 76, 77, 78, 79, 80, 100)]))),
+                                               HDRS=hdrsets(SETTERS, ["plain", "long", "token300", "token78", "token1000", "blanks", "trail", "tabs", "utf8"] + ["words%d" % n for n in (1, 5, 20, 40, 60, 70, 74, 75, 76, 77, 78, 79, 80, 100)] + ["dwords%d" % n for n in range(1, 121)])
+                                                    + ' \\cup ' + hdrsets(["preform"], ["plain", "multiline"]))),
             ('body-lengths-chunkings', 'MimeBuild', cfg(MAXP='2', MAXE='2', MAXA='2', ENCS='{"qp", "b64"}', PENCS='{"", "b64", "qp"}', CCS=LENS, ROTS='0..41',
                                                         PRODS='<<"string", "chunk1", "chunk3", "chunk7", "chunk57", "chunk76", "chunkr", "writer", "chunk19", "chunk2">>',
                                                         SRCS='<<"seeker", "chunk1", "chunk3", "chunk57", "reader", "chunk7">>')),
